@@ -34,7 +34,7 @@ PageSizes == {1}
 BufCounts == {1}
 FlashSizes == {1}
 MaxLen == 1
-Fates == {"ok", "okdup", "nack", "lostcmd", "lostreply"}
+Fates == {"ok", "okdup", "nack", "lostcmd", "lostreply", "stray"}
 Bug == "none"
 Observe == FALSE
 
